@@ -85,7 +85,8 @@ def scripts(quick, tmp):
                     for h in hist:
                         m, a, k = CALLS[h]
                         to = (k.get('timeout', a[0] if a else 0) or 0)
-                        sc += [{'op': 'call', 'var': 'w', 'method': m, 'args': a, 'kwargs': k, 'timeout': 4 * to + 3 + 12, 'h': h},
+                        sc += [{'op': 'call', 'var': 'w', 'method': m, 'args': a, 'kwargs': k, 'timeout': 4 * to + 3 + 12, 'h': h}] + \
+                              ([{'op': 'child_dead', 'var': 'w', 'kind': kind, 'h': 'probe0'}] if h == 'tf' else []) + [
                                # (after a forced termination the signal has been sent: under load the process may need a moment to go)
                                dict({'op': 'child_dead', 'var': 'w', 'kind': kind, 'h': 'probe'}, **({'within': 2.0} if h == 'tf' else {}))]
                     out.append({'script': sc, 'kind': kind, 'behaviour': beh, 'history': list(hist), 'npre': npre})
@@ -105,7 +106,12 @@ def judge(case, obs, load):
     known_dead = beh in ('finished', 'not-run')
     i = case['npre']
     for h in case['history']:
-        st, probe = steps[i], (steps[i + 1] if i + 1 < len(steps) else {})
+        st = steps[i]
+        probe0 = None
+        if h == 'tf':
+            probe0 = steps[i + 1] if i + 1 < len(steps) else {}
+            i += 1
+        probe = steps[i + 1] if i + 1 < len(steps) else {}
         i += 2
         m, a, k = CALLS[h]
         to = (k.get('timeout', a[0] if a else 0) or 0)
@@ -126,6 +132,9 @@ def judge(case, obs, load):
                 return [('%s-on-dead-worker-says-alive' % h, st)]
             if st.get('s', 0) > 1.0 * load:
                 return [('%s-on-dead-worker-slow' % h, st)]
+        if h == 'tf' and ret is False and probe0 is not None and probe0.get('ret') is True:
+            # the child was gone the instant the call came back saying "not dead"
+            return [('forced-terminate-says-alive-about-a-child-which-is-gone', {'call': st, 'probe': probe0})]
         if h == 'tf' and kind in ('P', 'PP', 'R', 'PR') and really_dead is not True:
             return [('forced-terminate-left-the-child-running', {'call': st, 'probe': probe})]
         if says_dead:
